@@ -18,6 +18,10 @@ that produces that record (k = 0), further ops follow:
 At most one stage `fail_at` (index into ops, or None) raises when its call sees
 a row of an element in `failing`; the work of that call is dropped, everything
 else is delivered once, in order.
+
+A data source may be cut into `k` contiguous shards (`shard_range`): the first
+n mod k shards hold one element more; shard i of k delivers exactly the
+elements of its range, whatever the source is assembled from.
 """
 
 
@@ -75,3 +79,10 @@ def first_failure(elements, ops, fail_at, failing):
     if run(elements[:m], ops, fail_at, failing)[2]:
       return m
   return None
+
+
+def shard_range(n, i, k):
+  """[lo, hi) of shard i of k over n elements (documented contiguous split)."""
+  q, r = divmod(n, k)
+  lo = i * q + min(i, r)
+  return lo, lo + q + (1 if i < r else 0)
